@@ -93,7 +93,11 @@ def do(method, ts, cfg, c, mu=1.0, N=1.0, mbl=1e-3, eps=1e-6, nonuniform=False):
             kw["priors"] = tsdate.build_prior_grid(tsc, population_size=N, timepoints=np.array(cfg["timepoints"], float))
         else:
             pop = N
-    return meta.outputs(method, tsc, mu / c, kw, popsize=pop)
+    with meta.ChangepointTieProbe() as probe:
+        ok, out = meta.outputs(method, tsc, mu / c, kw, popsize=pop)
+    if ok:
+        out["cp_tie"] = probe.tie
+    return ok, out
 
 
 def run(case):
@@ -130,7 +134,7 @@ def run(case):
                     okp, p = do(method, ts, cfg, 1.0, mu=1.0 * (1 + 2.0**-30))
                     tie = (not okp) or bool(meta.compare(b, p, 1e-5))
             viol.append(
-                {"kind": "not_coordinate_invariant", "msg": f"c={c!r}: {diffs}", "facts": {"exact_factor": exact, "tie_sensitive": bool(tie), "rescaling": rescaling, "method": method}, "sub": sub}
+                {"kind": "not_coordinate_invariant", "msg": f"c={c!r}: {diffs}", "facts": {"exact_factor": exact, "tie_sensitive": bool(tie), "changepoint_boundary_tie": bool(b.get("cp_tie") or o.get("cp_tie")), "rescaling": rescaling, "method": method}, "sub": sub}
             )
             tags["tie_sensitive_disagreements"] = tags.get("tie_sensitive_disagreements", 0) + int(bool(tie))
     return {"evals": evals, "viol": viol, "tags": tags, "keys": keys}
